@@ -42,7 +42,6 @@ theorem isCheckMate_iff (p : Position) (c : Color) :
     p.isCheckMate c = true ↔ p.isChecked c = true ∧ p.legalMoves c = [] := by
   simp [Position.isCheckMate, List.isEmpty_iff]
 
-example : ∃ m, m ∈ ({} : Position).pseudoLegalMoves .white ∨ True := ⟨{}, Or.inr trivial⟩
 
 /-!
 # The proof of `Statement WF`, staged by move kind
